@@ -23,9 +23,10 @@ DefT(d) == <<"def", d>>
 \* the fixed prelude of every program (lib.td); the tables below describe it
 Classes == {"Base", "Mid", "Mixin", "Both", "Other"}
 ClsParents == [c \in Classes |-> CASE c = "Mid" -> <<"Base">> [] c = "Both" -> <<"Mixin", "Mid">> [] OTHER -> <<>>]
-Defs == {"dBase", "dMid", "dMixin", "dBoth", "dTwo", "dOther"}
+Defs == {"dBase", "dMid", "dMixin", "dBoth", "dTwo", "dOther", "dsB1", "dsB2"}      \* dsB1, dsB2 are declared inside the defset dsBases
 DefParents == [d \in Defs |-> CASE d = "dBase" -> <<"Base">> [] d = "dMid" -> <<"Mid">> [] d = "dMixin" -> <<"Mixin">>
-                                [] d = "dBoth" -> <<"Both">> [] d = "dTwo" -> <<"Mixin", "Mid">> [] d = "dOther" -> <<"Other">>]
+                                [] d = "dBoth" -> <<"Both">> [] d = "dTwo" -> <<"Mixin", "Mid">> [] d = "dOther" -> <<"Other">>
+                                [] d = "dsB1" -> <<"Base">> [] d = "dsB2" -> <<"Mid">>]
 Range(s) == {s[i] : i \in DOMAIN s}
 
 RECURSIVE ClsAnc(_)
@@ -183,7 +184,10 @@ Ops == {
   Op("subst", "", 3, 3, {Row(<<"\"a\"", "\"b\"", "\"abc\"">>, S), Row(<<"vStr", "vStr", "vStr">>, S), Row(<<"dBase", "dBase", "dBase">>, DefT("dBase"))}),
   Op("interleave", "", 2, 2, {Row(<<"vInts", "\", \"">>, S), Row(<<"vStrs", "vStr">>, S), Row(<<"[true, false]", "\"\"">>, S)}),
   Op("foldl", "", 5, 5, {Row(<<"0", "vInts", "acc", "x", "!add(acc, x)">>, I), Row(<<"\"\"", "vStrs", "acc", "x", "!strconcat(acc, x)">>, S),
-                          Row(<<"vInts", "vInts", "acc", "x", "!listconcat(acc, [x])">>, LI)}),
+                          Row(<<"vInts", "vInts", "acc", "x", "!listconcat(acc, [x])">>, LI),
+                          \* the accumulator has the type of the start value, not of the list's elements
+                          Row(<<"0", "vStrs", "acc", "x", "!add(acc, !size(x))">>, I), Row(<<"\"\"", "vInts", "acc", "x", "!strconcat(acc, !cast<string>(x))">>, S),
+                          Row(<<"0", "[dBase, dMid]", "acc", "x", "!add(acc, x.w)">>, I)}),
   Op("foreach", "", 3, 3, {Row(<<"x", "vInts", "!add(x, 1)">>, LI), Row(<<"x", "vStrs", "!strconcat(x, \"!\")">>, LS),
                             Row(<<"x", "[1, 0]", "!eq(x, 1)">>, ListT(B))}),
   Op("filter", "", 3, 3, {Row(<<"x", "vInts", "!lt(x, 1)">>, LI), Row(<<"x", "vStrs", "!ne(x, \"a\")">>, LS)}),
